@@ -17,6 +17,7 @@ def handleLine (line : String) : M Unit := do
   | ["undo"] => handleUndo line
   | "obs" :: rest => handleObs line rest
   | "stump" :: rest => handleStump line rest
+  | ["enc", tag, res] => count ("enc:" ++ tag) line (res == "accepted")
   | _ => parseError line
 
 partial def loop (h : IO.FS.Stream) : M Unit := do
